@@ -118,3 +118,5 @@ PROPS["C16"]["rule"] = STORE_RULE + "; plus a concurrent run: groups of 8 gorout
 
 PROPS["C08"]["go_tests"] = ["TestVerifRing", "TestVerifRingStore"]
 PROPS["C08"]["rule"] += "; plus the same stepping through real Store.Get calls on one stripe, with schedules that park 12..17 readers between their tail CAS and the publication of their slot before another reader takes over the drain"
+
+PROPS["C20"]["timeout"] = {"quick": 300, "thorough": 1200}
